@@ -45,3 +45,12 @@ HARNESSES.append(
          assumptions=["dh_params: pstm_read_asn is a contract stub yielding arbitrary integers (privateValueLength: any value of <= 2 digits, in the range 0..40; values that need the full 16 384 iterations of the counting loop gave no verdict in 90 min and are not claimed); pstm_unsigned_bin_size / pstm_init_size / pstm_clear are stubs"],
          unwind=8,
          cases=[dict(name="small", defs={"VF_RANGE": 0}, unwindset={"psPkcs3ParseDhParamBin:/while\\(pstm_cmp_d/": 45})]))
+
+HARNESSES.append(
+    dict(name="ocsp_single", src="ocsp_single.c", checks=M, units=["crypto/keyformat/asn1.c", "core/src/psbuf.c"],
+         functions=["parseSingleResponse", "parseSingleResponseRevocationTimeAndReason", "getAsnSequence", "getAsnLength", "getAsnAlgorithmIdentifier"],
+         sources=["crypto/keyformat/x509.c", "crypto/keyformat/asn1.c"],
+         assumptions=["ocsp_single: input is an object of exactly VF_SIZE bytes, contents arbitrary; psBrokenDownTimeImport is a stub"],
+         undefined_ok="*", cbmc_flags=["--object-bits", "10"],
+         unwind=12, unwindset={"vf_bytes:/./": 60, "checkAsnOidDatabase:/while \\(1\\)/": 8, "memcmp.0": 26, "getAsnOID:/./": 60},
+         cases=[dict(name="size%d" % n, tier=t, defs={"VF_SIZE": n}) for n, t in ((40, "quick"),)]))
